@@ -16,6 +16,8 @@ Check(r) ==
   CASE r.e = "FW"  -> Check_FW(r)
     [] r.e = "FR"  -> Check_FR(r)
     [] r.e = "VEC" -> Check_VEC(r)
+    [] r.e = "X25ALL" -> Check_X25ALL(r)
+    [] r.e = "X25S" -> Check_X25S(r)
     [] r.e = "DEF" -> Check_DEF(r, Defs[r.d])
     [] r.e = "ENC" -> Check_ENC(r, Defs[r.d])
     [] r.e = "DEC" -> Check_DEC(r, Defs[r.d])
